@@ -688,3 +688,78 @@ Section MacroProofs.
     intros HF HE. unfold macro_expand, library_output_for. rewrite HF, HE. split; reflexivity.
   Qed.
 End MacroProofs.
+
+(* ------------------------------------------------------------------------------------------ *)
+(** * Statements assembled for props/C20.v *)
+
+Lemma bykey_operations_layout_independent :
+  forall (k : uid) (m m' : list (uid * Z)),
+    NoDup (map fst m) -> Permutation m m' ->
+    hm_get uid_eqb k m = hm_get uid_eqb k m' /\
+    snd (hm_remove uid_eqb k m) = snd (hm_remove uid_eqb k m') /\
+    Permutation (fst (hm_remove uid_eqb k m)) (fst (hm_remove uid_eqb k m')) /\
+    (forall x s s', Permutation s s' -> hs_mem x s = hs_mem x s').
+Proof.
+  intros k m m' ND P.
+  destruct (hm_remove_perm uid_eqb uid_eqb_eq k m m' ND P) as [H1 [H2 _]].
+  split; [exact (hm_get_perm uid_eqb uid_eqb_eq k m m' ND P)|].
+  split; [exact H1|]. split; [exact H2|]. exact hs_mem_perm.
+Qed.
+
+Lemma error_order_dependent_when_several_ok :
+  forall (conv : obj -> Z -> option Z) (d : device),
+    is_accept (reset_values_converted conv orders_id d) = true ->
+    (2 <= List.length (candidate_errors d))%nat ->
+    orders_ok orders_id /\ orders_ok orders_rev /\
+    hash_passes conv orders_id d <> hash_passes conv orders_rev d.
+Proof.
+  intros conv d A L. split; [exact orders_id_ok|]. split; [exact orders_rev_ok|].
+  exact (error_order_dependent_when_several conv d A L).
+Qed.
+
+Lemma dispatch_on_extension :
+  (forall e p, parser_of_ext e = Some p <->
+       (e = "json" /\ p = PJson) \/ (e = "yaml" /\ p = PYaml) \/ (e = "toml" /\ p = PToml) \/ (e = "dsl" /\ p = PDsl)) /\
+  (forall root p, is_absolute p = true -> resolve root p = p) /\
+  (forall root p, is_absolute p = false -> ends_with_slash root = false -> root <> "" ->
+                  resolve root p = (root ++ "/" ++ p)%string) /\
+  (forall (T : Type) (fs : string -> option string) (root : string) (lib : parser -> string -> option T),
+     (forall path content e,
+        fs (resolve root path) = Some content -> path_extension (resolve root path) = Some e ->
+        macro_expand fs root lib (MManifest path) =
+          match parser_of_ext e with
+          | Some p => of_lib (lib p content)
+          | None => MCompileError (MEUnknownExtension e)
+          end /\
+        library_output_for fs lib (resolve root path) =
+          match parser_of_ext e with Some p => lib p content | None => None end) /\
+     (forall path t, macro_expand fs root lib (MManifest path) = MExpand t <->
+                     library_output_for fs lib (resolve root path) = Some t) /\
+     (forall tokens t, macro_expand fs root lib (MInline tokens) = MExpand t <-> lib PDsl tokens = Some t) /\
+     (forall creatable (pretty : T -> string) path out t s,
+        macro_expand fs root lib (MManifest path) = MExpand t ->
+        chosen_sink creatable {| ci_path := resolve root path; ci_out := out |} = Some s ->
+        r_writes (cli_run fs creatable lib pretty {| ci_path := resolve root path; ci_out := out |})
+          = [(s, pretty t)])).
+Proof.
+  split; [exact parser_of_ext_spec|]. split; [exact resolve_absolute|]. split; [exact resolve_relative|].
+  intros T fs root lib. split; [exact (manifest_dispatch fs root lib)|].
+  split; [exact (macro_manifest_iff fs root lib)|]. split; [exact (macro_inline_iff fs root lib)|].
+  exact (macro_cli_agree fs root lib).
+Qed.
+
+Definition d13_witness : device :=
+  [ {| o_depth := 0; o_name := "A"; o_cfg := ""; o_kind := ORef KRegister "X1" None |};
+    {| o_depth := 0; o_name := "B"; o_cfg := ""; o_kind := ORef KRegister "X2" None |} ].
+
+Lemma error_order_refuted :
+  exists (d : device) (o1 o2 : orders),
+    orders_ok o1 /\ orders_ok o2 /\
+    List.length (candidate_errors d) = 2%nat /\
+    hash_passes (fun _ v => Some v) o1 d = Reject (ERefUnknown KRegister "A" "X1") /\
+    hash_passes (fun _ v => Some v) o2 d = Reject (ERefUnknown KRegister "B" "X2").
+Proof.
+  exists d13_witness, orders_id, orders_rev.
+  split; [exact orders_id_ok|]. split; [exact orders_rev_ok|].
+  vm_compute. repeat split.
+Qed.
